@@ -27,8 +27,6 @@ PREFIX_KIND = [
 def classify(msg):
     for p, k in PREFIX_KIND:
         if msg.startswith(p):
-            if k == "port":
-                return k, p
             return k, msg
     return "urlsplit", msg
 
